@@ -3,6 +3,7 @@ import PkgModel.Specifier
 import PkgProofs.Lemmas.PyCmp
 import PkgProofs.Lemmas.PyObj
 import PkgProofs.Props.Src.VersionStr
+import PkgProofs.Lemmas.SrcRobust
 /-!
 # Translated source of `Specifier._compare_*` = the model's `S.compare*` (`PkgModel/Specifier.lean`)
 
@@ -71,7 +72,8 @@ theorem view_version (v : Ver) : viewOf "Version" v = v := by simp [viewOf, rele
 
 theorem versionCls : IsVersionCls "Version" := .inl rfl
 
-/-- `Specifier._compare_less_than(prospective, spec_str)` -/
+/-- `Specifier._compare_less_than(prospective, spec_str)`.  Symbolic evaluation + a case split on every model-level test:
+the proof does not depend on whether the pre-release exclusion is nested `if`s, one `and` chain or a named local. -/
 theorem Specifier._compare_less_than_eq_model (self : PyVal) (p : Ver) (spec : Str) :
     Gen.PySrc.Specifier._compare_less_than self (ofVer "Version" p) (.str spec) = (S.compareLT p spec).map PyVal.bool := by
   unfold Gen.PySrc.Specifier._compare_less_than S.compareLT
@@ -81,19 +83,10 @@ theorem Specifier._compare_less_than_eq_model (self : PyVal) (p : Ver) (spec : S
   | ok sv =>
     simp only [Except.map, ok_bind, _BaseVersion.__lt___eq_model _ _ versionCls, cmpResult, pure_ok, truthy_bool,
       Version.is_prerelease_eq_model, Version.base_version_eq_model, view_version, mkVersion_eq_model]
-    cases h1 : p.lt sv
-    · rfl
-    · simp only [Bool.not_true, Bool.false_eq_true, if_false, Bool.not_eq_true']
-      cases h2 : sv.isPre <;> cases h3 : p.isPre <;> simp
-      · cases hpb : S.version p.base with
-        | error e => simp [bind, Except.bind]
-        | ok pb =>
-          cases hsb : S.version sv.base with
-          | error e => simp [bind, Except.bind]
-          | ok sb =>
-            simp [_BaseVersion.__eq___eq_model _ _ versionCls, eqResult, bind, Except.bind]
-            cases pb.eq sb <;> rfl
-      all_goals rfl
+    cases h1 : p.lt sv <;> cases h2 : sv.isPre <;> cases h3 : p.isPre <;>
+      cases hpb : S.version p.base <;> cases hsb : S.version sv.base <;>
+      src_simp [_BaseVersion.__eq___eq_model _ _ versionCls, eqResult, bind, Except.bind, pure, Except.pure] <;>
+      (try (repeat' split) <;> simp_all)
 
 /-- `Specifier._compare_less_than_equal(prospective, spec)` -/
 theorem Specifier._compare_less_than_equal_eq_model (self : PyVal) (p : Ver) (hp : WF p) (spec : Str) :
@@ -128,7 +121,7 @@ theorem Specifier._compare_arbitrary_eq_model (self : PyVal) (p : Ver) (hp : WF 
   unfold Gen.PySrc.Specifier._compare_arbitrary S.compareArbitrary
   simp [Version.__str___eq_model "Version" p (wf_loc hp), view_version, str_lower, PyRt.eq, Except.map, pure, Except.pure]
 
-/-- `Specifier._compare_greater_than(prospective, spec_str)` -/
+/-- `Specifier._compare_greater_than(prospective, spec_str)` (same style as `_compare_less_than`) -/
 theorem Specifier._compare_greater_than_eq_model (self : PyVal) (p : Ver) (hp : WF p) (spec : Str) :
     Gen.PySrc.Specifier._compare_greater_than self (ofVer "Version" p) (.str spec) = (S.compareGT p spec).map PyVal.bool := by
   unfold Gen.PySrc.Specifier._compare_greater_than S.compareGT
@@ -139,13 +132,9 @@ theorem Specifier._compare_greater_than_eq_model (self : PyVal) (p : Ver) (hp : 
     simp only [Except.map, ok_bind, _BaseVersion.__gt___eq_model _ _ versionCls, cmpResult, pure_ok, truthy_bool,
       Version.is_postrelease_eq_model, Version.base_version_eq_model, view_version, mkVersion_eq_model,
       Version.local_eq_model "Version" p (wf_loc hp), Version.public_eq_model p hp]
-    cases h1 : p.gt sv
-    · rfl
-    · simp only [Bool.not_true, Bool.false_eq_true, if_false, Bool.not_eq_true']
-      cases h2 : sv.isPost <;> cases h3 : p.isPost <;> cases hl : p.localStr <;>
-        cases hpp : S.version p.public <;> cases hpb : S.version p.base <;> cases hsb : S.version sv.base <;>
-        simp [ofOptStr, Except.map, _BaseVersion.__eq___eq_model _ _ versionCls, eqResult, bind, Except.bind, pure,
-          Except.pure] <;>
-        (try (repeat' split) <;> simp_all)
+    cases h1 : p.gt sv <;> cases h2 : sv.isPost <;> cases h3 : p.isPost <;> cases hl : p.localStr <;>
+      cases hpp : S.version p.public <;> cases hpb : S.version p.base <;> cases hsb : S.version sv.base <;>
+      src_simp [ofOptStr, _BaseVersion.__eq___eq_model _ _ versionCls, eqResult, bind, Except.bind, pure, Except.pure] <;>
+      (try (repeat' split) <;> simp_all)
 
 end Src
